@@ -45,10 +45,14 @@ def _checker(sel):
             name, ppath, rpath = rd
             changed = sigs[k].get(ppath) != sigs[k - 1].get(ppath)
             ran = name in r[2]
-            if changed and not ran:
+            rchanged = sigs[k].get(rpath) != sigs[k - 1].get(rpath)
+            seen_before = any(sigs[j].get(rpath) == sigs[k].get(rpath) for j in sigs if j < k)
+            if changed and not rchanged:
+                return "step %d: %s now serves another result but the signature of its reader %s did not change" % (k, ppath, name)
+            if changed and not ran and not seen_before:
                 return "step %d: %s now serves another result but its reader %s was served from the store" % (k, ppath, name)
-            if not changed and ran and sigs[k - 1].get(rpath) is not None:
-                return "step %d: %s is unchanged but its reader %s was re-evaluated" % (k, ppath, name)
+            if not changed and sigs[k - 1].get(rpath) is not None and (ran or rchanged) and not step.get("variants"):
+                return "step %d: %s is unchanged but its reader %s was re-evaluated / re-keyed" % (k, ppath, name)
         return None
 
     return on_step
@@ -84,6 +88,14 @@ def queries(tier):
     # revert: the producer is served from the store on its third run, the path must point back to the first content
     L = {"style": "load", "path": "/t9/p"}
     qs.append(q("earlier.revert", "T9", [dict(P), dict(P), dict(P, leaves_from=0), dict(L, leaves_from=0), dict(R, leaves_from=0)], timeout=600))
+    if tier == "thorough":
+        for name, root, reader in (("top", "root_b", None), ("helper", "root_c", ["reader_h", "/t9/p", "/t9/rh"]), ("keepcall", "root_d", ["reader_k", "/t9/k", "/t9/rk"]), ("twopaths", "root_f", ["reader_k2", "/t9/k2", "/t9/rk2"])):
+            st = {"style": "eval", "entry": [M, root]}
+            if reader:
+                st["reader"] = reader
+            qs.append(q("same.%s.edit" % name, "T9", [dict(st, variants={M: "a"}), dict(st, variants={M: "b"}, leaves_from=0), dict(st, variants={M: "a"}, restart=True)], timeout=900))
+            qs.append(q("same.%s.three" % name, "T9", [dict(st), dict(st, restart=True), dict(st)], timeout=1500))
+        qs.append(q("earlier.edit", "T9", [dict(P, variants={M: "a"}), dict(R, leaves_from=0), dict(P, variants={M: "b"}, leaves_from=0), dict(R, leaves_from=0), dict(L, leaves_from=0)], timeout=1500))
     # ill-formed
     for name, root in (("before", "bad_before"), ("inline", "bad_inline"), ("never", "bad_never")):
         qs.append(q("bad.%s.fresh" % name, "T9", [{"style": "eval", "entry": [M, root], "expect_dds_error": True}], timeout=200))
